@@ -2,10 +2,10 @@ package main
 
 import (
 	"bufio"
-	"io"
 	"crypto/tls"
 	"encoding/json"
 	"fmt"
+	"io"
 	"net"
 	"net/http"
 	"net/http/httptest"
